@@ -6,7 +6,7 @@ Batch == JsonDeserialize(IOEnv.TRACE_FILE)
 Traces == Batch.traces
 N == Len(Traces)
 F(e, f, d) == IF f \in DOMAIN e THEN e[f] ELSE d
-Ps == 1..4
+Ps == 1..9       \* 9 = a native usim activity waiting for an event (embedded runs)
 Es == 1..2
 VARIABLES tid, l, ev, wait, pend, intq, until, bad
 vars == <<tid, l, ev, wait, pend, intq, until, bad>>
